@@ -66,9 +66,8 @@ def run_schedule(job, schedule, k, cache=None, event_processors=None, error_hand
         return {"status": "deadlock", "values": {}, "err": {"path": IR.NONE, "kind": "deadlock"}, "calls": build._calls(rt),
                 "pause": {"path": IR.NONE, "key": IR.NONE, "value": IR.NONE}}, ctl
     if isinstance(res, BaseException):
-        hit = [(p, i) for p, i, x in rt.raised if x is res]
         return {"status": "raised", "values": {}, "calls": build._calls(rt),
-                "err": {"path": hit[0][0], "kind": "body"} if hit else {"path": IR.NONE, "kind": "other:" + type(res).__name__ + ":" + str(res)[:200]},
+                "err": build.classify_error(rt, res),
                 "pause": {"path": IR.NONE, "key": IR.NONE, "value": IR.NONE}}, ctl
     return build.observe(rt, res), ctl
 
